@@ -12,12 +12,18 @@ PROPS["C18"] = {
                    "a result that differs from the same call made sequentially, a history that no sequential LRU execution explains, "
                    "a Get that returns another key's expanded key, or a broken index/recency-list invariant. The measured overlap "
                    "(logical-clock stamps) and eviction counts are reported as classes so that a vacuous run is visible. "
+                   "The workload also runs the verification equation with scalars of every size class, ECVRF proving/verifying and hash-to-curve with "
+                   "a shared DST longer than 255 bytes; goroutines pass the SAME read-only input buffers; a call that never returns under "
+                   "concurrency is a violation decided by a budget of CPU time (not wall clock). "
                    "A race that needs a window the perturbation never opens is missed. Does not prove absence."),
     "level_note": ("Trusted: the Go race detector and runtime, porcupine v1.3.0 (cross-checked by a brute-force checker on every negative "
                    "verdict and on 1,500 random histories per run), the 40-line sequential LRU model (cross-checked against verifref.LRU). "
                    "Expected values of the workload are the library's own sequential results (the property is 'equals some sequential "
-                   "execution'; functional correctness is C01-C17). No timing thresholds are used as oracles; a child that hangs for 30 "
-                   "minutes is a harness error, not a violation."),
+                   "execution'; functional correctness is C01-C17); the sequential results themselves are tied to crypto/ed25519 and the reference "
+                   "(signatures, keys, proofs made outside the library) so that state corrupted for good by a racy start-up is not invisible. The LRU "
+                   "model accepts both value policies of Put on a resident key. No timing thresholds are used as oracles; a child whose goroutines are still running after 300 "
+                   "CPU-seconds on one repetition (they take milliseconds) is reported as 'no return under concurrency'; a child that is merely blocked "
+                   "falls to the Go runtime's deadlock detector or, failing that, to a 30-minute limit that is a harness error, not a violation."),
     "rule": ("(a) workload = N in 2..16 goroutines x generated []Op over {sign, verify (all presets, pure/ctx/ph), batch verify, NewKeyFromSeed, "
              "X25519, ScalarBaseMult, MulBasepoint on ED25519_BASEPOINT_TABLE, verify with shared ExpandedPublicKeys, shared cache.Verifier "
              "(capacity 1..3, 6 valid + 2 hostile keys), sr25519 sign/verify through a shared SigningContext, hash-to-curve, Merlin on clones of a "
